@@ -132,6 +132,7 @@ type HookSpec struct {
 type ResSlot struct {
 	Kind    string            `json:"kind"`
 	Group   string            `json:"group,omitempty"` // API group override (a kind served by more than one group)
+	APIVer  string            `json:"apiVer,omitempty"` // version override within the kind's group (a kind served at two versions)
 	Name    string            `json:"name"`
 	NS      string            `json:"ns,omitempty"`   // explicit metadata.namespace
 	File    string            `json:"file"`           // template file name (under templates/)
